@@ -1735,9 +1735,37 @@ func hasArith(v ssa.Value) bool {
 				return true
 			}
 		}
+	case *ssa.Call:
+		return calleeHasArith(x, 0)
+	case *ssa.Extract:
+		if call, ok := x.Tuple.(*ssa.Call); ok {
+			return calleeHasArith(call, x.Index)
+		}
 	}
 	return false
 }
+
+// calleeHasArith: result i of a module helper is computed by arithmetic on some return (the helper is transparent for
+// terms — inlineResult — so it must be transparent for "this comparison presumes arithmetic did not wrap" too).
+func calleeHasArith(call *ssa.Call, i int) bool {
+	sc := call.Call.StaticCallee()
+	if sc == nil || len(sc.Blocks) == 0 || sc.Pkg == nil || !strings.HasPrefix(sc.Pkg.Pkg.Path(), modPath) {
+		return false
+	}
+	if hasArithBusy[sc] {
+		return false
+	}
+	hasArithBusy[sc] = true
+	defer delete(hasArithBusy, sc)
+	for _, r := range returnsOf(sc) {
+		if i < len(r.Results) && hasArith(retval(r, i)) {
+			return true
+		}
+	}
+	return false
+}
+
+var hasArithBusy = map[*ssa.Function]bool{}
 
 func (f Fact) Key() string {
 	if f.Lin {
